@@ -17,7 +17,16 @@ META = {
     "note": ("Trusted: Lean kernel (propext, Classical.choice, Quot.sound); extract/c01.go; harness/c01.go; the modelling of os.File "
              "as a byte string (append, in-place 64-byte header rewrite); snappy and CRC-32 are parameters of every theorem (the "
              "driver's executable snappy decoder / CRC-32 are differential-tested on every real block). Explicit physical bounds: "
-             "payload and block size <= 1 GiB, swamp name < 65536 bytes (C29 covers longer names)."),
+             "payload and block size <= 1 GiB, swamp name < 65536 bytes (C29 covers longer names). Chronicler layer: entryOf/chronWrite "
+             "(Hv/Storage/ChronWrite.lean) model Write's INSERT/UPDATE/DELETE choice, insert_update_equivalent proves the choice is "
+             "replay-irrelevant, Holds.apiRejects demands that a refused treasure is reported (currently violated: recorded finding). "
+             "Exports: inserts_roundtrip (fresh file from distinct-key encodable INSERTs loads back exactly, with its name) is the "
+             "byte-level discharge of C23's V2.Lawful on keys of 1..65535 bytes and names < 2^16. Relation to the block-granular "
+             "model Hv.BlockStore (C02/C03/C25): its assumption (A1) 'the payload written for a header decodes to that block's "
+             "entries' is Hv.Storage.readNextBlock_encodeBlock, which needs GoodBlock (every entry Encodable, < 65536 entries, "
+             "< 2 GiB) — i.e. the block model's results hold on acknowledged writes only because WriteEntry now rejects "
+             "unencodable keys and Add flushes at 65535 entries (it hard-codes '>=' flush, no count flush, accepts every key); its "
+             "(A2) 'anything else fails the checksum' is readNextBlock_crc_mismatch, true up to the 2^-32 CRC residual."),
     "design_ref": "§8 C01",
 }
 
@@ -26,9 +35,27 @@ FINDINGS = {
     "C01-long-key-accepted": "WriteEntry accepts a key longer than 65535 bytes; its 16-bit length field wraps and the file no longer loads (or loads different records)",
     "C01-block-entry-count-overflow": "a block with more than 65535 buffered entries wraps the 16-bit EntryCount; the extra entries are silently dropped on load",
     "C01-delete-not-replayed": "LoadIndex does not remove keys on OpDelete",
+    "C01-chronicler-drops-refused-entry": ("chroniclerV2.Write only logs an entry the writer refuses (empty / >65535-byte key) and has no result: "
+                                           "the swamp and the gateway have already acknowledged the record, which is gone after a reload"),
 }
 
 DRV_FACTS = ["rejectsEmptyKey", "rejectsLongKey", "flushCmp", "flushAtCount", "deleteRemoves"]
+
+
+# A case the Lean driver would need minutes for (its index is an association list): run in the quick
+# tier on the implementation only and judged by the Python Spec oracle; the thorough tier runs it
+# through the model as well.  70 000 live keys, then a forced compaction.
+BIG_CASE = ["case 0", "cfg 0 x:612f622f63", "wk 70000 3 0", "w 3 x:00000000 x:-", "close", "load", "compact", "load",
+            "reopen", "wk 10 3 70000", "close", "load"]
+
+
+def impl_only_case(ctx, ops):
+    import os
+    import subprocess
+    p = subprocess.run([os.path.join(K.BIN, "hx"), "run", "C01"], input="\n".join(ops) + "\n", stdout=subprocess.PIPE,
+                       stderr=subprocess.PIPE, text=True, timeout=300)
+    impl = p.stdout.split("\n")[:-1]
+    return impl, S.history_oracle(ops, impl)
 
 
 def spec_violated(rep):
@@ -58,7 +85,7 @@ def run(ctx):
     known = K.known_ids(ctx.pid)
     oracle_hits = {}
     if not c.err:
-        for i, what, sig in S.history_oracle(c.ops, c.impl):
+        for i, what, sig in S.history_oracle(c.ops, c.impl, api_validates=facts.get("apiValidatesKeys") == "yes"):
             oracle_hits.setdefault(sig, []).append((i, what))
     for sig, hits in oracle_hits.items():
         i, what = hits[0]
@@ -70,6 +97,22 @@ def run(ctx):
                 ctx.known_hits.append((sig, FINDINGS.get(sig, sig)))
         else:
             ctx.violation("implementation violates the property: " + what, rep, tag=sig or "impl")
+    # the large-live-set compaction case, implementation + oracle only
+    big_bad = []
+    if getattr(ctx, "hx_ok", False):
+        try:
+            big_impl, big_bad = impl_only_case(ctx, BIG_CASE)
+        except Exception as e:
+            big_impl, big_bad = [], [(0, "the 70 000-key compaction case did not finish: %r" % (e,), None)]
+        for i, what, sig in big_bad[:1]:
+            rep = {"ops": BIG_CASE[:i + 1], "impl": big_impl[:i + 1], "correspondence": "C01 (implementation + Python Spec oracle only)",
+                   "signature": sig}
+            if sig is not None and sig in known:
+                if sig not in [k for k, _ in ctx.known_hits]:
+                    ctx.known_hits.append((sig, FINDINGS.get(sig, sig)))
+            else:
+                ctx.violation("implementation violates the property: " + what, rep, tag=sig or "impl")
+    ctx.cov["large_live_set_compaction_case"] = {"ops": BIG_CASE, "oracle_violations": len(big_bad)}
     if ctx.thorough:
         ok, out = K.leanchecker(ctx, ["Hv.Props.C01", "Hv.Storage.WriterLemmas", "Hv.Storage.ReaderLemmas", "Hv.Storage.FormatLemmas",
                                       "Hv.Storage.SpecLemmas"])
